@@ -156,3 +156,39 @@ package rhp
 //@        && result0.Usage == callres("ReviseForReplenish", 1)
 //@   ensures [nothing-due] result1 == nil && !called("ReviseForReplenish") ==> result0.Revision == p.Contract.Revision
 //@   ensures [hostsig] result1 == nil && called("ReviseForReplenish") ==> hostSigned(p.Contract.Revision.HostPublicKey, callres("ReviseForReplenish", 0), result0.Revision)
+//
+// ---------------------------------------------------------------------------
+// C16 (renter): a failed form / renew / refresh attempt releases the renter's reserved inputs
+//
+//@ iface TransactionFunder.FundV2Transaction
+//@   assigns pointee:txn
+//@ iface TransactionFunder.RecommendedFee
+//@   assigns nothing
+//@ iface TransactionFunder.ReleaseInputs
+//@   assigns nothing
+//@ iface TransactionInputSigner.SignV2Inputs
+//@   params txn, toSign
+//@   assigns pointee:txn
+//@ iface TxPool.V2TransactionSet
+//@   assigns nothing
+//@ extern rhp4.RefreshContractPartialRollover pure
+//@ extern rhp4.RefreshContractFullRollover pure
+//@ extern rhp4.RefreshCost pure
+//@ extern rhp4.RenewalCost pure
+//@ extern rhp4.RenewContract pure
+//@ extern rhp4.NewContract pure
+//@ extern rhp4.ContractCost pure
+//@ extern (types.V2FileContractElement).Move
+//@   assigns nothing
+//@ extern (types.SiacoinElement).Move
+//@   assigns nothing
+//
+//@ func rpcRefreshContract props C16
+//@   requires t != nil && tp != nil && signer != nil
+//@   ensures [released-on-error] result1 != nil && called("FundV2Transaction") && callres("FundV2Transaction", 2) == nil ==> mayHaveCalled("ReleaseInputs")
+//@ func RPCRenewContract props C16
+//@   requires t != nil && tp != nil && signer != nil
+//@   ensures [released-on-error] result1 != nil && called("FundV2Transaction") && callres("FundV2Transaction", 2) == nil ==> mayHaveCalled("ReleaseInputs")
+//@ func RPCFormContract props C16
+//@   requires t != nil && tp != nil && signer != nil
+//@   ensures [released-on-error] result1 != nil && called("FundV2Transaction") && callres("FundV2Transaction", 2) == nil ==> mayHaveCalled("ReleaseInputs")
